@@ -32,6 +32,11 @@ WALKS = (
 )
 
 
+def _private_same_module(fi):
+    """Inline private module-level helpers of the same module (extract-function refactorings)."""
+    return lambda f: f.cls is None and f.module == fi.module and f.name.startswith("_")
+
+
 def node_of_field(t, field):
     if t[0] == "attr" and t[2] == field:
         return t[1]
@@ -107,6 +112,28 @@ def check_row_ids(chk, rep, repo, only=None, floor=3):
             args = dict(zip(["idx", "label", "features"], ev.value[2]))
             args.update(dict(ev.value[3]))
             idx, feats = args.get("idx"), args.get("features")
+            if idx is not None and idx[0] == "sel":
+                # `idx = i if I is None else I[i].item()`: each arm under its own condition
+                arms = [(idx[2], ev.guards + ((idx[1], True),)), (idx[3], ev.guards + ((idx[1], False),))]
+            else:
+                arms = [(idx, ev.guards)]
+            verdicts = [_row_id_ok(fi, a, feats, g) for a, g in arms]
+            ok = all(v[0] for v in verdicts)
+            detail = next((v[1] for v in verdicts if not v[0]), "")
+            rep.ev("K6", ev, ok, detail)
+    chk.floor("Node constructions", n, floor)
+    if only is not None:
+        return
+    _check_forwarding(chk, rep, repo)
+
+
+def _row_id_ok(fi, idx, feats, guards):
+    class _E:  # minimal event view for the guard queries below
+        pass
+    ev = _E()
+    ev.guards = guards
+    if True:
+        if True:
             ok, detail = False, ("a node's row id must come from the caller's index array for these rows "
                                  "(I[i] with the counter that yields the row), or be the running row number when "
                                  "no index array was given")
@@ -142,10 +169,10 @@ def check_row_ids(chk, rep, repo, only=None, floor=3):
                             if not no_arr:
                                 detail = ("synthesised row id (node count + i) used although the caller may have "
                                           "given the rows' index array")
-            rep.ev("K6", ev, ok, detail)
-    chk.floor("Node constructions", n, floor)
-    if only is not None:
-        return
+            return ok, detail
+
+
+def _check_forwarding(chk, rep, repo):
     # models forward I_* next to the matching X_*
     nf = 0
     for cls in ("SupervisedOPF", "SemiSupervisedOPF", "KNNSupervisedOPF", "UnsupervisedOPF"):
@@ -171,7 +198,7 @@ def check_row_ids(chk, rep, repo, only=None, floor=3):
 def check_builders(chk, rep, repo):
     # pre_compute_distance
     fi = repo.need_function("opfython.math.general", "pre_compute_distance")
-    w = Walker(repo, fi, inline=lambda f: False)
+    w = Walker(repo, fi, inline=_private_same_module(fi))
     st = [e for e in w.events if e.kind == "store" and e.target[0] == "idx" and e.target[1][0] == "idx"
           and e.target[1][1][0] == "alloc"]
     ok = False
@@ -271,14 +298,8 @@ def check_file_agreement(chk, rep, repo):
     # reader table: extension -> loader -> delimiter
     w = model_walk(repo, "OPF", "_read_distances")
     ext_r = ext_term(w.entry.params[1])
-    readers = {}
-    for ev in w.events:
-        if ev.kind == "call" and ev.target[0] == "mod" and ev.target[1].startswith("opfython.stream.loader."):
-            exts = [g for g, pol in ev.guards if pol and g[0] == "cmp" and g[1] == "==" and ext_r in (g[2], g[3])]
-            if len(exts) == 1:
-                e = exts[0][2] if exts[0][3] == ext_r else exts[0][3]
-                if e[0] == "const":
-                    readers[e[1]] = ev.target[1].rsplit(".", 1)[1]
+    from ..schema import extension_dispatch
+    readers = extension_dispatch(w, ext_r, ("csv", "txt", "json"), "opfython.stream.loader")
     rep.fn("FILE-readers", w.entry, f"reader dispatch by extension: {readers}", set(readers) >= {"csv", "txt"},
            "the reader no longer dispatches on .csv and .txt")
     delims = {}
@@ -294,7 +315,7 @@ def check_file_agreement(chk, rep, repo):
                "the loader must read the path it was given")
     # writer
     fi = repo.need_function("opfython.math.general", "pre_compute_distance")
-    ww = Walker(repo, fi, inline=lambda f: False)
+    ww = Walker(repo, fi, inline=_private_same_module(fi))
     sv = [e for e in ww.events if e.kind == "call" and e.name == "numpy.savetxt"]
     if len(sv) != 1:
         raise AnalysisError("pre_compute_distance: expected one np.savetxt call")
